@@ -77,10 +77,11 @@ CHECKS.update({
                   'checked and replayed on the real PeerState',
         level=('model_checking',
                'Bounded liveness: TLC liveness checking on the small configurations (also with a crash); every spec-level wedge '
-               'is replayed and drained on real nodes before it counts; real-goroutine runs must reach the target height and '
-               'their recorded traces must be behaviours of the spec.', 'DESIGN.md §4 C12, §9'),
-        note=TM_NOTE + ' Liveness is bounded (rounds/heights); wall-clock dependent failures of the relayed real-goroutine runs are '
-                       'reported as inconclusive; a fault-free run of the full reactor stack that does not reach its height is '
+               'is replayed and drained on real nodes before it counts; full-stack real-goroutine runs must reach the target height and '
+               'the recorded traces of all real-goroutine runs must be behaviours of the spec.', 'DESIGN.md §4 C12, §9'),
+        note=TM_NOTE + ' Liveness is bounded (rounds/heights); a relayed real-goroutine run (harness relay instead of the reactors, no '
+                       'VoteSetMaj23 exchange) carries no progress verdict - its trace is validated whether or not it reached the '
+                       'target (DESIGN.md 9.6); a fault-free run of the full reactor stack that does not reach its height is '
                        'repeated twice with 2x and 4x the time and only three identical outcomes are a violation.'),
 })
 
